@@ -8,6 +8,7 @@ from . import tokens as T
 from . import c09
 
 EXPLANATION = (
+    "(sound) on the expression catalogue (sa/rules/exhaust.py: every top-level sequence of up to two / three segments around one alternation or repetition whose sub-expressions have up to two segments, two branch tokens in one sequence, a branch nested in a repetition; built as the parser builds them, kept when the rule checker accepts them) and on the same expressions behind a leading separator (a rooted tree wildcard when they begin with `**`), a verdict has_root = always implies that every path the emitted program matches begins with a separator, and no buildable expression reports `sometimes`; for the shapes of the catalogue.  For all inputs, the pieces the queries are made of: "
     "Static decision of the pieces the root and semantic-literal queries are made of: (rooting) the set of rooting "
     "leaves is exactly {separator, rooted tree wildcard}; the fold combines the terms of a concatenation with `or` over "
     "its first token only, of an alternation with `certainty` over all branches, and weakens an optional repetition to "
@@ -15,7 +16,7 @@ EXPLANATION = (
     "SEP.Sigma* (shared with the C01 emission table); (semantic) a literal sequence is semantic iff its text is `.` or "
     "`..`, and Glob::has_semantic_literals is `any` over Token::literals.  That a built glob never reports `sometimes` "
     "follows from the rule checker (C06) and is reported there.")
-RULES = "C12.rooting (TABLE), C12.begin (EMIT), C12.semantic (TABLE+EFFECT)"
+RULES = "C12.sound (TABLE on a catalogue: verdict vs. language), C12.rooting (TABLE), C12.begin (EMIT), C12.semantic (TABLE+EFFECT)"
 
 WHEN = "query::When"
 
@@ -31,6 +32,8 @@ def run(ctx):
     rule_semantic(F, R)
     from . import encoder
     encoder.rule_begin(F, R)
+    from . import exhaust
+    exhaust.report_query(F, R, "C12.sound", ctx.tier, "root", 10000, 1500)
 
 
 def rule_rooting(F, R):
